@@ -78,6 +78,13 @@ def gen_case(rng, stats):
         else:
             vals[3] = 10 ** rng.uniform(0, 5.5)
     vals = [float(v) for v in vals]
+    dl = drift_literals()  # noqa: F405
+    if dl and rng.random() < 0.2:
+        L = rng.choice(dl)
+        i = rng.randrange(4)
+        v = rng.choice([L, -L, L + rng.choice([-1, 1]) * 10 ** rng.uniform(-12, -3)])
+        if (i != 0 or abs(v) <= 90) and (ep == 'vincinv' and i == 2 and abs(v) > 90) is False:
+            vals[i] = float(v)
     mode = 'decimal'
     if rng.random() < (0.8 if ft == 'dms' else 0.1):   # HP-valid spelling of the same angles
         for i in ANGLE_IN[ep]:
@@ -187,7 +194,7 @@ def main():
     t0 = time.time()
     rng = random.Random(f'{seed()}:corr_api')
     thorough = tier() == 'thorough'
-    n = 160000 if thorough else 12000
+    n = 160000 if thorough else 12000 * scale()  # noqa: F405
     stats = Stats()
     disagreements = []
 
